@@ -20,7 +20,6 @@ struct CfgWeightSpecx : CfgCommon {
     static constexpr long NbRhs = 2;
     using Mult = std::array<unsigned long, 2>;
     using Loc = std::array<unsigned long, 2>;
-    template <class PK> using TopAlgo = NoTop;
 };
 
 #define REG(key, Cfg, Ex) static WorldRegistrar reg_##Cfg##_##Ex(key, [](const Scenario& s) { return std::unique_ptr<IWorld>(new World<Cfg, Ex>(s)); })
